@@ -395,13 +395,15 @@ pub fn gen_setup(r: &mut Rng, want_degenerate: Option<bool>) -> Setup {
       if guard(move || sp.joint_spectrum(Integrator::default())).is_some() {
         return Setup {
           name: format!(
-            "{}{} L={:.4e}um wp={:.4e}um ws={:.4e}um bw={:.4e}nm",
+            "{}{} L={:.4e}um wp={:.4e}um ws={:.4e}um bw={:.4e}nm lp={:.6}nm ls={:.6}nm",
             name,
             if degenerate { "/deg" } else { "/nondeg" },
             len_um,
             wp,
             ws,
-            bw
+            bw,
+            *(spdc.pump.vacuum_wavelength() / (NANO * M)),
+            *(spdc.signal.vacuum_wavelength() / (NANO * M))
           )
           .replace(' ', ","),
           spdc,
@@ -640,7 +642,8 @@ fn two_part(ctx: &mut Ctx) {
         ctx.s("C10.purity", false, "hom2/visibilities-panic", &det);
       }
       if let Some(r) = &res {
-        rate_bounds(ctx, &r.ss, &r.ii, &r.si, &delays, &det, "same", rk, jsi_norm(&e[0]), jsi_norm(&e[1]));
+        let ident = { let q = raw(&r1); q.0 == q.3 && q.1 == q.4 };
+        rate_bounds(ctx, &r.ss, &r.ii, &r.si, &delays, &det, "same", rk, [jsi_norm(&e[0]), jsi_norm(&e[1]), jsi_norm(&e[6]), jsi_norm(&e[7])], ident);
       } else {
         ctx.s("C10.bounds", false, "hom2/rate-series-panic", &det);
       }
@@ -708,10 +711,15 @@ fn two_part(ctx: &mut Ctx) {
 }
 
 #[allow(clippy::too_many_arguments)]
-fn rate_bounds(ctx: &mut Ctx, ss: &[f64], ii: &[f64], si: &[f64], delays: &[f64], det: &str, who: &str, rk: &str, n1: f64, n2: f64) {
+fn rate_bounds(ctx: &mut Ctx, ss: &[f64], ii: &[f64], si: &[f64], delays: &[f64], det: &str, who: &str, rk: &str, norms: [f64; 4], identical_axes: bool) {
+  let (n1, n2) = (norms[0], norms[1]);
   if !(n1 > 0.0 && n2 > 0.0) {
     return;
   }
+  // N1'·N2' (norms of the idler×idler and signal×signal grids) against N1·N2: the quantity the
+  // signal–idler bound of theorem `si_mem_unit_partial` depends on
+  let ratio = norms[2] * norms[3] / (n1 * n2);
+  let axes = if identical_axes { "identical" } else { "unequal" };
   for (j, tau) in delays.iter().enumerate() {
     for (name, v) in [("ss", ss[j]), ("ii", ii[j]), ("si", si[j])] {
       let ok = v >= -EDGE && v <= 1.0 + EDGE;
@@ -722,7 +730,15 @@ fn rate_bounds(ctx: &mut Ctx, ss: &[f64], ii: &[f64], si: &[f64], delays: &[f64]
       } else {
         format!("hom2/rate-{}-not-in-unit", name)
       };
-      ctx.s("C10.bounds", ok, &sig, &format!("{} who={} rangekind={} channel={} tau={:e} rate={:e}", det, who, rk, name, tau, v));
+      ctx.s(
+        "C10.bounds",
+        ok,
+        &sig,
+        &format!(
+          "{} who={} rangekind={} axes={} nprime_gt={} nprime_ratio={:e} channel={} tau={:e} rate={:e}",
+          det, who, rk, axes, if ratio > 1.0 { 1 } else { 0 }, ratio, name, tau, v
+        ),
+      );
     }
   }
 }
